@@ -66,7 +66,12 @@ def run_shard(job):
         def on_path(e, outcome):
             if time.time() - t0 > max_seconds:
                 raise Budget()
-            H.judge(e, params, outcome)
+            if state["n"] <= 12:
+                sys.setprofile(prof)   # harnesses such as C14 execute more of the real code while judging (to_worklist)
+            try:
+                H.judge(e, params, outcome)
+            finally:
+                sys.setprofile(None)
 
         incomplete = False
         try:
